@@ -696,6 +696,126 @@ def _parent_expr(root: ast.AST, node: ast.AST):
     return root
 
 
+def _r9(repo: Repo, ctx) -> None:
+    """(a) a multi-valued setting evaluated statically becomes the empty
+           set only when the expression is empty (None), never for a falsy
+           element;
+       (b) a chained spec routes a type-name lookup by the type tables of
+           its parts, not by their setting-name membership;
+       (c) the sub-second part of an ISO duration takes its sign from the
+           text (a sign group), not from the numeric value of the seconds
+           (-0 has none)."""
+    ctx.floor('C19.R9', 3)
+    # (a)
+    ev = repo.func(f'{STAEVAL}.evaluate_config_set')
+    ctx.saw(ev)
+    empt = [a for a in ast.walk(ev.node) if isinstance(a, ast.Assign)
+            and isinstance(a.value, (ast.List, ast.Tuple, ast.Set))
+            and not a.value.elts or (isinstance(a, ast.Assign) and norm(
+                a.value) in ('[]', 'set()', 'frozenset()', '()'))]
+    if not empt:
+        raise AnalysisError('C19.R9: empty-set normalisation of '
+                            'evaluate_config_set not found')
+    for a in empt:
+        var = norm(a.targets[0])
+        guard = None
+        for n in ast.walk(ev.node):
+            if isinstance(n, ast.If) and a in n.body:
+                guard = n.test
+        ok = guard is not None and isinstance(guard, ast.Compare) and \
+            isinstance(guard.ops[0], ast.Is) and norm(guard.left) == var \
+            and norm(guard.comparators[0]) == 'None'
+        ctx.ob('C19.R9', 'evaluate_config_set:empty-only-for-None', ok,
+               f'evaluate_config_set replaces `{var}` by the empty set '
+               f'under `{norm(guard) if guard is not None else "no test"}`: '
+               f"a single falsy element ('' / 0 / false) of a multi-valued "
+               f'setting is stored as the empty set', ev.loc,
+               sample=f'if {var} is None: {var} = []')
+    # (b)
+    SP = 'edb.server.config.spec'
+    flat_c = repo.find_method(f'{SP}.FlatSpec', '__contains__')
+    flat_t = repo.find_method(f'{SP}.FlatSpec', 'get_type_by_name')
+    ch_t = repo.find_method(f'{SP}.ChainedSpec', 'get_type_by_name')
+    if None in (flat_c, flat_t, ch_t):
+        raise AnalysisError('C19.R9: FlatSpec/ChainedSpec lookups not found')
+    ctx.saw(ch_t)
+
+    def tables(f):
+        return {x.attr for x in ast.walk(f.node) if isinstance(
+            x, ast.Attribute) and norm(x.value) == 'self'}
+    differ = tables(flat_c) != tables(flat_t)
+    member = [norm(c) for c in ast.walk(ch_t.node) if isinstance(
+        c, ast.Compare) and isinstance(c.ops[0], (ast.In, ast.NotIn))
+        and norm(c.comparators[0]).startswith('self._')]
+    deleg = [c for c in ast.walk(ch_t.node) if isinstance(c, ast.Call)
+             and isinstance(c.func, ast.Attribute) and c.func.attr ==
+             'get_type_by_name']
+    ctx.ob('C19.R9', 'ChainedSpec.get_type_by_name:routes-by-type-table',
+           len(deleg) >= 2 and not (member and differ),
+           f'ChainedSpec.get_type_by_name routes by {member}: membership '
+           f'of a spec is over setting names ({sorted(tables(flat_c))}), '
+           f'type names live in {sorted(tables(flat_t))}, so an object type '
+           f'defined by an extension is looked up in the base spec and '
+           f'INSERT / from_json of its objects fails', ch_t.loc,
+           sample='try top.get_type_by_name except KeyError: base')
+    # (c)
+    pi = repo.find_method(f'{STA}.Duration', '_parse_iso8601')
+    if pi is None:
+        raise AnalysisError('C19.R9: Duration._parse_iso8601 not found')
+    ctx.saw(pi)
+    frac = set()
+    for a in ast.walk(pi.node):
+        if isinstance(a, ast.Assign) and any(
+                isinstance(x, ast.Constant) and x.value == 'microseconds'
+                for x in ast.walk(a.value)):
+            frac.add(norm(a.targets[0]))
+    changed = True
+    while changed:
+        changed = False
+        for a in ast.walk(pi.node):
+            if isinstance(a, ast.Assign) and norm(a.targets[0]) not in frac \
+                    and any(isinstance(x, ast.Name) and x.id in frac
+                            for x in ast.walk(a.value)):
+                frac.add(norm(a.targets[0]))
+                changed = True
+    terms = [a for a in ast.walk(pi.node) if isinstance(a, ast.AugAssign)
+             and (any(isinstance(x, ast.Name) and x.id in frac
+                      for x in ast.walk(a.value))
+                  or any(isinstance(x, ast.Constant) and x.value ==
+                         'microseconds' for x in ast.walk(a.value)))]
+    if not terms:
+        raise AnalysisError('C19.R9: sub-second term of _parse_iso8601 '
+                            'not found')
+    for t in terms:
+        tests = [x.test for x in ast.walk(t.value) if isinstance(
+            x, ast.IfExp)]
+        for nm in {x.id for x in ast.walk(t.value) if isinstance(x, ast.Name)
+                   and x.id not in frac}:
+            for a in ast.walk(pi.node):
+                if isinstance(a, ast.Assign) and norm(a.targets[0]) == nm:
+                    tests += [x.test for x in ast.walk(a.value)
+                              if isinstance(x, ast.IfExp)]
+                    tests += [x for x in ast.walk(a.value)
+                              if isinstance(x, ast.Compare)]
+        textual = [x for x in tests for c in ast.walk(x) if isinstance(
+            c, ast.Compare) and any(isinstance(k, ast.Constant) and
+                                    isinstance(k.value, str)
+                                    for k in c.comparators)]
+        numeric = [norm(x) for x in tests for c in ast.walk(x) if isinstance(
+            c, ast.Compare) and any(isinstance(k, ast.Constant) and
+                                    isinstance(k.value, (int, float))
+                                    and not isinstance(k.value, bool)
+                                    for k in c.comparators)]
+        ctx.ob('C19.R9', 'Duration._parse_iso8601:fraction-sign-from-text',
+               bool(textual) and not numeric,
+               f'the sub-second part of an ISO 8601 duration takes its sign '
+               f'from {numeric or "nothing"}: the integer seconds of '
+               f'`PT-0.5S` are -0 == 0, so the fraction loses its sign and '
+               f'the stored -0.5s is loaded back as +0.5s', pi.loc,
+               sample='sign group compared with \'-\'')
+
+
 def run(repo: Repo, ctx) -> None:
     _run_main(repo, ctx)
     _r8(repo, ctx)
+    _r9(repo, ctx)
